@@ -3,6 +3,7 @@ C19 — scripted green/red agents act only when and how their settings allow.
 Property theorems; the models are `Model/Agents.lean` and `Model/AgentsTap.lean`.
 -/
 import PrimaiteModel.Model.AgentsTap
+import PrimaiteModel.Gen.Agents
 namespace Primaite.Agents
 
 /-! ## 1. The inverse-CDF sampler (numpy `Generator.choice(n, p=…)` as used by ProbabilisticAgent) -/
@@ -919,6 +920,9 @@ theorem setNext_fields (c : Cfg) (s : St) (b d : Int) :
     (setNext c s b d).cur = s.cur ∧ (setNext c s b d).nxt = s.nxt ∧ (setNext c s b d).concluded = s.concluded := by
   simp only [setNext, St.raise]; split <;> simp
 
+theorem setNext_chosen (c : Cfg) (s : St) (b d : Int) : (setNext c s b d).chosen = s.chosen := by
+  simp only [setNext, St.raise]; split <;> rfl
+
 theorem outcome_other (c : Cfg) (s : St) (h1 : s.cur ≠ .succeeded) (h2 : s.cur ≠ .failed) : outcomeHandler c s = s := by
   simp [outcomeHandler, h1, h2]
 
@@ -1091,6 +1095,268 @@ theorem C19_tap1_stage_step (c : Cfg) (s : St) (t : Int) (i : In) (hinv : Inv s)
     · have := getAction_stage c s t i hinv
       exact ⟨this.1, this.2⟩
 
+/-! runs: consecutive timesteps from 0, arbitrary draws and responses -/
+
+/-- States after each tick of a run that feeds timesteps `t, t+1, …`. -/
+def run (c : Cfg) : St → Int → List In → List St
+  | _, _, [] => []
+  | s, t, i :: is => (step c s t i).1 :: run c (step c s t i).1 (t + 1) is
+
+/-- Every consecutive pair of sampled stages is related by `R`. -/
+def Linked (R : Stage → Stage → Prop) : Stage → List St → Prop
+  | _, [] => True
+  | a, s :: rest => R a s.cur ∧ Linked R s.cur rest
+
+theorem run_stage (c : Cfg) : ∀ (ins : List In) (s : St) (t : Int), Inv s →
+    Linked (Allowed c) s.cur (run c s t ins) ∧ ∀ s' ∈ run c s t ins, Inv s' := by
+  intro ins
+  induction ins with
+  | nil => intro s t _; exact ⟨trivial, by simp [run]⟩
+  | cons i is ih =>
+    intro s t hinv
+    obtain ⟨ha, hi⟩ := C19_tap1_stage_step c s t i hinv
+    obtain ⟨h1, h2⟩ := ih _ (t + 1) hi
+    refine ⟨⟨ha, h1⟩, ?_⟩
+    intro s' hs'
+    simp only [run, List.mem_cons] at hs'
+    rcases hs' with rfl | hs'
+    · exact hi
+    · exact h2 s' hs'
+
+/-- **stage_monotone** (TAP001). For every configuration, every schedule/trial/scan draw and every sequence of
+simulator responses, the stage sampled after each tick is related to the previous one by `Allowed`: it stays,
+moves to the *next* stage of the chain (PAYLOAD's next is SUCCEEDED), becomes FAILED, leaves NOT_STARTED for
+DOWNLOAD, or — only with `repeat_kill_chain` — restarts from SUCCEEDED/FAILED. -/
+theorem C19_tap1_stage_monotone (c : Cfg) (d0 : Int) (s0 : St) (ins : List In) (h0 : init c d0 = some s0) :
+    Linked (Allowed c) s0.cur (run c s0 0 ins) ∧ ∀ s ∈ run c s0 0 ins, Inv s := by
+  have hinv : Inv s0 := by
+    unfold init at h0
+    split at h0
+    · cases h0; exact Or.inr rfl
+    · cases h0
+  exact run_stage c ins s0 0 hinv
+
+/-- **no_skip**: a stage other than the first is only ever entered from its predecessor. -/
+theorem C19_tap1_no_skip (c : Cfg) (a b : Stage) (h : Allowed c a b) (hb : b.chain = true) (hne : b ≠ a)
+    (hfirst : b ≠ .download) : a.chain = true ∧ b = a.succ := by
+  rcases h with h | ⟨hc, h⟩ | h | ⟨_, h⟩ | ⟨_, _, h | h⟩ | ⟨_, _, h⟩
+  · exact absurd h hne
+  · exact ⟨hc, h⟩
+  · rw [h] at hb; simp [Stage.chain] at hb
+  · exact absurd h hfirst
+  · rw [h] at hb; simp [Stage.chain] at hb
+  · exact absurd h hfirst
+  · rw [h] at hb; simp [Stage.chain] at hb
+
+/-- SUCCEEDED is entered only from PAYLOAD. -/
+theorem C19_tap1_succeeded_only_from_payload (c : Cfg) (a : Stage) (h : Allowed c a .succeeded) (hne : a ≠ .succeeded) :
+    a = .payload := by
+  revert h hne
+  cases a <;> simp [Allowed, Stage.succ, Stage.chain]
+
+/-- Non-vacuity: with every response successful the agent walks DOWNLOAD … PAYLOAD, SUCCEEDED and concludes. -/
+def exCfg : Cfg :=
+  { startStep := 1, frequency := 1, variance := 0, repeatKillChain := false, repeatStages := true,
+    pPropagate := ⟨1, 1⟩, pC2 := ⟨1, 1⟩, pPayload := ⟨1, 1⟩, scanAttempts := 20, repeatScan := false, nAddr := 2,
+    exfiltrate := true, corrupt := true, continueOnFailedExfil := true }
+
+def exIn : In :=
+  { d1 := 0, d2 := 0, u := ⟨0, 1⟩, dScan := 0, resp := { ok := true, hostsEmpty := false, containsTarget := true, hasPg := true } }
+
+example : ∃ s0, init exCfg 0 = some s0 ∧
+    ((run exCfg s0 0 (List.replicate 20 exIn)).map (·.cur)).eraseDups
+      = [.notStarted, .download, .install, .activate, .propagate, .c2, .payload, .succeeded] ∧
+    ((run exCfg s0 0 (List.replicate 20 exIn)).getLast?.map (·.concluded)) = some true := by
+  refine ⟨_, rfl, ?_, ?_⟩ <;> decide
+
+/-! ends per settings -/
+
+theorem bodies_of_notStarted (c : Cfg) (i : In) (s : St) (h : s.cur = .notStarted) : bodies c i s = tapStart s := by
+  rw [bodies_eq, applyDown_reach c i s 6 (by rw [h]; simp [rank]), h]
+  rfl
+
+theorem tapStart_concluded (s : St) : (tapStart s).concluded = s.concluded := by
+  unfold tapStart; split
+  · rfl
+  · split <;> simp [St.raise]
+
+/-- **ends_per_settings (absorbing).** Once `actions_concluded` is set, every later call returns do-nothing and
+changes nothing. -/
+theorem C19_tap1_concluded_absorbing (c : Cfg) (s : St) (t : Int) (i : In) (h : s.concluded = true) :
+    getAction c s t i = (s, Act.nothing) := by
+  simp [getAction, executes, h]
+
+/-- **ends_per_settings (stop).** Without `repeat_kill_chain`, the first execution slot that finds the chain
+SUCCEEDED or FAILED sets `actions_concluded`, keeps the stage, and returns do-nothing. -/
+theorem C19_tap1_stops (c : Cfg) (s : St) (t : Int) (i : In) (h : Hist)
+    (hrep : c.repeatKillChain = false) (hterm : s.cur = .succeeded ∨ s.cur = .failed)
+    (hex : executes s t = true) (hh : pyIndex s.hist s.curT = some h) :
+    (getAction c s t i).1.concluded = true ∧
+    ((getAction c s t i).1.cur = .succeeded ∨ (getAction c s t i).1.cur = .failed) ∧
+    (getAction c s t i).2 = Act.nothing := by
+  have hcon : s.concluded = false := by simp [executes] at hex; exact hex.2
+  have h1 : ((returnHandler c h s).cur = .succeeded ∨ (returnHandler c h s).cur = .failed) ∧
+      (returnHandler c h s).concluded = false := by
+    unfold returnHandler; split
+    · exact ⟨Or.inr rfl, hcon⟩
+    · exact ⟨hterm, hcon⟩
+  unfold getAction
+  rw [if_neg (by simp [hex])]
+  simp only [hh]
+  generalize returnHandler c h s = s1 at h1 ⊢
+  have key : ∀ (b d : Int) (s' : St), (s'.cur = .succeeded ∨ s'.cur = .failed) → s'.concluded = false →
+      (outcomeHandler c (setNext c s' b d)).concluded = true ∧
+      ((outcomeHandler c (setNext c s' b d)).cur = .succeeded ∨ (outcomeHandler c (setNext c s' b d)).cur = .failed) ∧
+      (outcomeHandler c (setNext c s' b d)).chosen = Act.nothing := by
+    intro b d s' ht hc
+    have hf := setNext_fields c s' b d
+    have ht' : (setNext c s' b d).cur = .succeeded ∨ (setNext c s' b d).cur = .failed := by rw [hf.1]; exact ht
+    have := (outcome_terminal c _ ht' (by rw [hf.2.2]; exact hc)).2 hrep
+    refine ⟨this.2.2, by rw [this.1]; exact ht', ?_⟩
+    unfold outcomeHandler
+    rw [if_pos ht']
+    simp [hf.2.2, hc, hrep]
+  split
+  · -- main path
+    unfold mainPath
+    have hk := key (t + c.frequency) i.d1 { s1 with curT := t } h1.1 h1.2
+    rw [bodies_terminal c i _ hk.2.1]
+    exact hk
+  · unfold failPath
+    have hk := key (t + c.frequency) i.d1 s1 h1.1 h1.2
+    have hf := setNext_fields c { outcomeHandler c (setNext c s1 (t + c.frequency) i.d1) with curT := t } (t + c.frequency) i.d2
+    refine ⟨by rw [hf.2.2]; exact hk.1, by rw [hf.1]; exact hk.2.1, ?_⟩
+    rw [setNext_chosen]
+    exact hk.2.2
+
+/-- **ends_per_settings (restart).** With `repeat_kill_chain`, the first execution slot that finds the chain
+SUCCEEDED or FAILED puts the agent back to NOT_STARTED (and, on the main path, straight into DOWNLOAD); it never
+sets `actions_concluded`. -/
+theorem C19_tap1_restarts (c : Cfg) (s : St) (t : Int) (i : In) (h : Hist)
+    (hrep : c.repeatKillChain = true) (hterm : s.cur = .succeeded ∨ s.cur = .failed)
+    (hex : executes s t = true) (hh : pyIndex s.hist s.curT = some h) :
+    (getAction c s t i).1.concluded = false ∧
+    ((getAction c s t i).1.cur = .notStarted ∨ (getAction c s t i).1.cur = .download) := by
+  have hcon : s.concluded = false := by simp [executes] at hex; exact hex.2
+  have h1 : ((returnHandler c h s).cur = .succeeded ∨ (returnHandler c h s).cur = .failed) ∧
+      (returnHandler c h s).concluded = false := by
+    unfold returnHandler; split
+    · exact ⟨Or.inr rfl, hcon⟩
+    · exact ⟨hterm, hcon⟩
+  unfold getAction
+  rw [if_neg (by simp [hex])]
+  simp only [hh]
+  generalize returnHandler c h s = s1 at h1 ⊢
+  have key : ∀ (b d : Int) (s' : St), (s'.cur = .succeeded ∨ s'.cur = .failed) → s'.concluded = false →
+      (outcomeHandler c (setNext c s' b d)).concluded = false ∧
+      (outcomeHandler c (setNext c s' b d)).cur = .notStarted := by
+    intro b d s' ht hc
+    have hf := setNext_fields c s' b d
+    have ht' : (setNext c s' b d).cur = .succeeded ∨ (setNext c s' b d).cur = .failed := by rw [hf.1]; exact ht
+    have := (outcome_terminal c _ ht' (by rw [hf.2.2]; exact hc)).1 hrep
+    exact ⟨this.2.2, this.1⟩
+  split
+  · unfold mainPath
+    have hk := key (t + c.frequency) i.d1 { s1 with curT := t } h1.1 h1.2
+    rw [bodies_of_notStarted c i _ hk.2]
+    exact ⟨by rw [tapStart_concluded]; exact hk.1, Or.inr (tapStart_fire _ hk.2).1⟩
+  · unfold failPath
+    have hk := key (t + c.frequency) i.d1 s1 h1.1 h1.2
+    have hf := setNext_fields c { outcomeHandler c (setNext c s1 (t + c.frequency) i.d1) with curT := t } (t + c.frequency) i.d2
+    exact ⟨by rw [hf.2.2]; exact hk.1, Or.inl (by rw [hf.1]; exact hk.2)⟩
+
+theorem succ_ne_failed (x : Stage) (h : x.chain = true) : x.succ ≠ .failed := by
+  cases x <;> simp [Stage.succ, Stage.chain] at h ⊢
+theorem succ_ne_notStarted (x : Stage) (h : x.chain = true) : x.succ ≠ .notStarted := by
+  cases x <;> simp [Stage.succ, Stage.chain] at h ⊢
+
+/-- **progress_only_after_success.** The stage advances to its successor only in an execution slot whose look-back
+response (`history[current_timestep]`, the response to the agent's previous execution) was a success — except in
+PROPAGATE (which inspects scan responses itself) and in PAYLOAD after a failed exfiltration with
+`continue_on_failed_exfil`. -/
+theorem C19_tap1_progress_only_after_success (c : Cfg) (s : St) (t : Int) (i : In)
+    (hch : s.cur.chain = true) (hadv : (getAction c s t i).1.cur = s.cur.succ) :
+    executes s t = true ∧ ∃ h, pyIndex s.hist s.curT = some h ∧
+      (h.resp.ok = true ∨ s.cur = .propagate ∨
+        (s.cur = .payload ∧ s.prog = .inProgress ∧ c.continueOnFailedExfil = true)) := by
+  have hne : s.cur.succ ≠ s.cur := by cases hc : s.cur <;> simp_all [Stage.succ, Stage.chain]
+  unfold getAction at hadv
+  split at hadv
+  · exact absurd hadv.symm hne
+  · rename_i hex
+    refine ⟨by simpa using hex, ?_⟩
+    split at hadv
+    · exact absurd hadv.symm hne
+    · rename_i h hh
+      refine ⟨h, hh, ?_⟩
+      split at hadv
+      · rename_i hp
+        have hf : s.cur ≠ .failed := by intro hf; rw [hf] at hch; simp [Stage.chain] at hch
+        rw [passes_returnHandler c h s hp hf] at hp
+        simp only [passes, Bool.or_eq_true, Bool.and_eq_true, beq_iff_eq] at hp
+        rcases hp with (hp | hp) | hp
+        · exact Or.inl hp
+        · exact Or.inr (Or.inl hp)
+        · exact Or.inr (Or.inr ⟨hp.1.1, hp.1.2, hp.2⟩)
+      · -- the repeat-previous-action branch never advances
+        exfalso
+        have hsoft := returnHandler_soft c h s
+        generalize returnHandler c h s = s1 at hsoft hadv
+        unfold failPath at hadv
+        have hf := setNext_fields c { outcomeHandler c (setNext c s1 (t + c.frequency) i.d1) with curT := t } (t + c.frequency) i.d2
+        rw [hf.1] at hadv
+        have hf1 := setNext_fields c s1 (t + c.frequency) i.d1
+        have ho : (outcomeHandler c (setNext c s1 (t + c.frequency) i.d1)).cur = s1.cur ∨
+            (outcomeHandler c (setNext c s1 (t + c.frequency) i.d1)).cur = .notStarted := by
+          unfold outcomeHandler
+          split
+          · split
+            · exact Or.inl hf1.1
+            · split
+              · exact Or.inr rfl
+              · exact Or.inl hf1.1
+          · exact Or.inl hf1.1
+        simp only at hadv
+        rcases ho with ho | ho
+        · rw [ho] at hadv
+          rcases hsoft.1 with h1 | h1
+          · rw [h1] at hadv; exact hne hadv.symm
+          · rw [h1] at hadv; exact succ_ne_failed s.cur hch hadv.symm
+        · rw [ho] at hadv; exact succ_ne_notStarted s.cur hch hadv.symm
+
 end Tap1
+
+/-! ## 7. Translator tie: the tables regenerated from the source equal what the models assume -/
+
+/-- `MobileMalwareKillChain` in the source has exactly the members and values of `Tap1.Stage`. -/
+theorem C19_gen_tap1_stages :
+    Gen.Agents.mobileMalwareKillChain = Tap1.Stage.all.map (fun s => (s.name, s.val)) := by decide
+
+/-- `InsiderKillChain` in the source has exactly the members and values of `Tap3.Stage`. -/
+theorem C19_gen_tap3_stages :
+    Gen.Agents.insiderKillChain = Tap3.Stage.all.map (fun s => (s.name, s.val)) := by decide
+
+theorem C19_gen_progress_enum :
+    Gen.Agents.stageProgress = [Progress.pending, .inProgress, .finished].map (fun p => (p.name, p.val)) := by decide
+
+/-- initial and final stages, and the order in which `get_action` calls the stage methods (last stage first). -/
+theorem C19_gen_dispatch :
+    Gen.Agents.tap1Initial = Tap1.Stage.download.name ∧ Gen.Agents.tap1Final = Tap1.Stage.payload.name ∧
+    Gen.Agents.tap3Initial = Tap3.Stage.reconnaissance.name ∧ Gen.Agents.tap3Final = Tap3.Stage.exploit.name ∧
+    Gen.Agents.tap1PreGuard = [] ∧ Gen.Agents.tap1Dispatch = Tap1.dispatchOrder ∧
+    Gen.Agents.tap3PreGuard = Tap3.preGuard ∧ Gen.Agents.tap3Dispatch = Tap3.dispatchOrder := by decide
+
+/-- schedule guards and comparators: `==`/`<` in PeriodicAgent, `<` in DataManipulationAgent and the TAPs,
+`variance >= frequency` rejected, `random() < p`, symmetric `randint(-variance, variance)`. -/
+theorem C19_gen_guards :
+    Gen.Agents.periodicTimeOp = "Eq" ∧ Gen.Agents.periodicCountOp = "Lt" ∧ Gen.Agents.dmIdleOp = "Lt" ∧
+    Gen.Agents.varianceRejectOp = "GtE" ∧ Gen.Agents.trialOp = "Lt" ∧
+    Gen.Agents.tap1Guard = "timestep < self.next_execution_timestep or self.actions_concluded" ∧
+    Gen.Agents.tap3Guard = "timestep < self.next_execution_timestep or self.actions_concluded" ∧
+    Gen.Agents.periodicRandintArgs = "-variance, variance" ∧
+    Gen.Agents.tapRandintArgs = "-self.config.agent_settings.variance, self.config.agent_settings.variance" := by decide
+
+/-- F-29: the probability vector is indexed by action number, not by the order of the mapping in the file. -/
+theorem C19_gen_vector_by_key : Gen.Agents.probVectorOrder = "byKey" := by decide
 
 end Primaite.Agents
